@@ -32,6 +32,12 @@ COLS = {
     "log": [7.0, 8.0, 9.0, 11.0, 12.0],
     "center": [1.0, 0.0, 2.0, 0.0, 1.0],
     "unused1": [9.0, 9.5, 8.0, 7.0, 6.0],
+    # column names containing a dot (common for data coming from R) and their common root
+    "Sepal.Length": [5.1, 4.9, 4.7, 4.6, 5.0],
+    "Sepal.Width": [3.5, 3.0, 3.2, 3.1, 3.6],
+    "Sepal": [1.0, 2.0, 1.0, 2.0, 3.0],
+    "lo": [0.0, 1.0, 1.0, 2.0, 0.5],
+    "hi": [3.0, 3.0, 2.5, 3.0, 4.0],
 }
 
 
@@ -89,6 +95,16 @@ def formulas_a(rng, thorough):
         add(f"poly({a}, 2) + bs({b}, df=3)", "stateful-transform", {a, b})
         add(f"C({a}) + {b}", "stateful-transform", {a, b})
         add(f"C({a}, contr.sum) + {b}", "transform-constant", {a, b})
+        # names in every argument position of a call: positional, keyword, nested inside a keyword
+        add(f"np.clip({a}, a_min=lo, a_max=hi) + {b}", "keyword-argument", {a, b, "lo", "hi"}, "np")
+        add(f"np.clip({a}, a_min=np.abs({b}), a_max=10)", "keyword-argument", {a, b}, "np")
+        add(f"np.maximum({a}, {b}) + np.where({a} > 1, {b}, w)", "positional-arguments", {a, b, "w"}, "np")
+        add(f"poly({a}, degree=2) + scale({b}, center=True)", "keyword-constant", {a, b})
+        add(f"center(np.add({a}, {b}))", "nested-call", {a, b}, "np")
+        # data columns whose names contain a dot
+        add(f"Sepal.Length + {a}", "dotted-column", {"Sepal.Length", a})
+        add(f"`Sepal.Width`:{a} + {b} + Sepal", "dotted-column", {"Sepal.Width", "Sepal", a, b})
+        add(f"Sepal.Length ~ {a} + Sepal.Width", "dotted-column", {"Sepal.Length", "Sepal.Width", a})
     add("x + y + z + w", "plain", set(names))
     add("(x + y + z)**2", "plain", {"x", "y", "z"})
     add("y + z ~ x + np.sqrt(w)", "two-sided", set(names), "np")
@@ -102,9 +118,13 @@ def formulas_a(rng, thorough):
             reads = set()
             for _ in range(k):
                 a = rng.choice(names)
-                form = rng.choice(["{a}", "{a}", "center({a})", "np.log({a} + 10)", "I({a} * 2)", "{{{a} + 1}}", "poly({a}, 2)", "scale(center({a}))"])
-                atoms.append(form.format(a=a))
+                c = rng.choice(names)
+                form = rng.choice(["{a}", "{a}", "center({a})", "np.log({a} + 10)", "I({a} * 2)", "{{{a} + 1}}", "poly({a}, 2)", "scale(center({a}))",
+                                   "np.clip({a}, a_min=0, a_max={c})", "np.add({a}, {c})", "poly({a}, degree=2)", "np.clip(a=I({a}), a_min={c}, a_max=100)"])
+                atoms.append(form.format(a=a, c=c))
                 reads.add(a)
+                if "{c}" in form:
+                    reads.add(c)
             rng.shuffle(atoms)
             f = rng.choice([" + ", ":", " + ", "*"]).join(dict.fromkeys(atoms))
             add(f, "random", reads, "np")
@@ -313,7 +333,8 @@ def check_dot(b, counts, rng, thorough):
     from formulaic.parser import DefaultFormulaParser
 
     base_cols = ["w", "y", "x", "my col", "z"]
-    orders = [base_cols, ["z", "x", "y", "w", "my col"], ["y", "my col", "w"], ["x", "y"]]
+    orders = [base_cols, ["z", "x", "y", "w", "my col"], ["y", "my col", "w"], ["x", "y"],
+              ["Sepal.Length", "Sepal.Width", "Sepal", "w"], ["w", "Sepal", "y", "Sepal.Width", "Sepal.Length"]]
     if thorough:
         orders += [list(p) for p in itertools.islice(itertools.permutations(base_cols), 3, 120, 7)]
     # (formula template, lhs-used columns, extra rhs terms after the expansion, removed columns, intercept)
@@ -329,6 +350,11 @@ def check_dot(b, counts, rng, thorough):
         ("y ~ . + x:y", ["y"], ["x:y"], [], True),
         ("y ~ 0 + .", ["y"], [], [], False),
         ("y ~ . - 1", ["y"], [], [], False),
+        ("Sepal.Length ~ .", ["Sepal.Length"], [], [], True),
+        ("`Sepal.Length` ~ .", ["Sepal.Length"], [], [], True),
+        ("Sepal ~ .", ["Sepal"], [], [], True),
+        ("Sepal.Width + w ~ .", ["Sepal.Width", "w"], [], [], True),
+        ("np.log(w) ~ . - Sepal", ["w"], [], ["Sepal"], True),
     ]
     for cols in orders:
         data = {c: COLS[c][:4] for c in cols}
@@ -375,7 +401,7 @@ def run_bounded(ctx):
         with ctx.bounded(
             "required-variables",
             rule="formula templates (plain, two-sided, nested calls, python expressions, attribute access, quoted names, data columns "
-                 "named like transforms, context constants, stateful transforms) instantiated over ordered pairs of x,y,z (+ 40/400 seeded "
+                 "named like transforms, context constants, stateful transforms, keyword/positional/nested call arguments, dotted column names) instantiated over ordered pairs of x,y,z (+ 40/400 seeded "
                  "random formulas) x 2 data column sets (exactly the read columns / plus unrelated columns) x "
                  "phase before/after; each case restricts the data to the reported set and then drops every reported column in turn; "
                  "non-trivial = the formula reads >= 2 columns",
@@ -397,8 +423,8 @@ def run_bounded(ctx):
             check_resolution(b, counts)
         with ctx.bounded(
             "dot-expansion",
-            rule="11 formulas with '.' (different left-hand sides incl. calls/expressions/quoted names, '.' alone, removal, extra "
-                 "interaction, no intercept) x data column orders (4 quick / +17 permutations thorough) x 3 entry points "
+            rule="16 formulas with '.' (different left-hand sides incl. calls/expressions/quoted names/column names containing a dot next to their root, '.' alone, removal, extra "
+                 "interaction, no intercept) x data column orders (6 quick / +17 permutations thorough) x 3 entry points "
                  "(model_matrix, Formula with __formulaic_variables_available__, same with the no-intercept parser); expected rhs = "
                  "[1] + data columns not used on the lhs in data order (+/- the written extras)",
             exhaustive=False,
